@@ -99,6 +99,45 @@ def early_changes(acc, picks) -> List[Any]:
     return done
 
 
+#: the "device" behind each live characteristic: id(char) -> [current raw reading]
+DEVICE: Dict[int, list] = {}
+
+
+def live_class():
+    """An application subclass of the public `Characteristic` that overrides the public accessor
+    `get_value()`: the value lives in the device and is read on demand (no getter callback, nothing
+    goes through a setter).  Same object layout as `Characteristic`, so a characteristic the loader
+    built can be given this class before the driver ever sees it."""
+    from pyhap.characteristic import Characteristic
+
+    cls = getattr(Characteristic, "_verif_live_class", None)
+    if cls is None:
+
+        class LiveCharacteristic(Characteristic):
+            __slots__ = ()
+
+            def get_value(self):
+                if TRACE_ON[0]:
+                    TRACE.append(("r", self))
+                return self.to_valid_value(DEVICE[id(self)][0])
+
+        cls = LiveCharacteristic
+        Characteristic._verif_live_class = cls
+    return cls
+
+
+def overrides_get_value(char) -> bool:
+    """True if the characteristic's class (an application subclass) overrides `get_value`."""
+    from pyhap.characteristic import Characteristic
+
+    for k in type(char).__mro__:
+        if k is Characteristic:
+            return False
+        if "get_value" in vars(k):
+            return True
+    return False
+
+
 class GetterBoom(Exception):
     pass
 
